@@ -55,61 +55,60 @@ def run_check(prop, root, tier=None):
 
 
 def main():
+    import par
+    import threading
     ap = argparse.ArgumentParser()
     ap.add_argument('-k', default='')
+    ap.add_argument('-j', type=int, default=8)
     ap.add_argument('--keep', action='store_true')
     a = ap.parse_args()
     tmp = tempfile.mkdtemp(prefix='yarel_selftest_')
-    root = os.path.join(tmp, 'repo')
-    copy_repo(root)
-    results = []
-    ok_all = True
-    # evidence files are rewritten by checks: preserve the real ones
-    evdir = os.path.join(VERIF, 'evidence')
-    evsave = tempfile.mkdtemp(prefix='yarel_ev_')
-    if os.path.isdir(evdir):
-        for f in os.listdir(evdir):
-            shutil.copy(os.path.join(evdir, f), evsave)
-    try:
-        for m in MUTANTS:
-            if a.k and a.k not in m['name'] and a.k not in m['prop']:
-                continue
-            saved = apply(root, m['edits'])
-            t0 = time.time()
-            try:
-                rc, out = run_check(m['prop'], root)
-            finally:
-                restore(saved)
+    roots = {}
+    lock = threading.Lock()
+
+    def root_of(slot):
+        with lock:
+            if slot not in roots:
+                roots[slot] = os.path.join(tmp, 'slot%d' % slot, 'repo')
+                copy_repo(roots[slot])
+            return roots[slot]
+
+    def one(item, slot, env):
+        kind, m = item
+        root = root_of(slot)
+        saved = apply(root, m['edits'])
+        t0 = time.time()
+        try:
+            rc, out = par.run_check(m['prop'], root, os.environ.get('SELFTEST_TIER', 'quick'), env)
+        finally:
+            restore(saved)
+        if kind == 'mutant':
             fired = rc == 1 and ('VIOLATION property=%s' % m['prop']) in out
             named = m['expect'] in out
             good = fired and named
-            ok_all &= good
-            results.append({'mutant': m['name'], 'prop': m['prop'], 'fired': fired, 'named': named, 'rc': rc})
-            print('%-6s %-4s %-55s %s (%.1fs)' % ('MUTANT', m['prop'], m['name'], 'caught' if good else 'MISSED rc=%d' % rc, time.time() - t0))
-            if not good:
-                print('\n'.join('      ' + l for l in out.splitlines()[-12:]))
-        for m in BENIGN:
-            if a.k and a.k not in m['name'] and a.k not in m['prop']:
-                continue
-            saved = apply(root, m['edits'])
-            try:
-                rc, out = run_check(m['prop'], root)
-            finally:
-                restore(saved)
+            msg = '%-6s %-4s %-55s %s (%.1fs)' % ('MUTANT', m['prop'], m['name'], 'caught' if good else 'MISSED rc=%d' % rc, time.time() - t0)
+            res = {'mutant': m['name'], 'prop': m['prop'], 'fired': fired, 'named': named, 'rc': rc}
+        else:
             good = rc == 0
+            msg = '%-6s %-4s %-55s %s' % ('BENIGN', m['prop'], m['name'], 'silent' if good else 'FALSE ALARM rc=%d' % rc)
+            res = {'benign': m['name'], 'prop': m['prop'], 'silent': good, 'rc': rc}
+        if not good:
+            msg += '\n' + '\n'.join('      ' + l for l in out.splitlines()[-12:])
+        return res, msg, good
+
+    items = [('mutant', m) for m in MUTANTS if not a.k or a.k in m['name'] or a.k in m['prop']]
+    items += [('benign', m) for m in BENIGN if not a.k or a.k in m['name'] or a.k in m['prop']]
+    results = []
+    ok_all = True
+    try:
+        for (res, msg, good) in par.pool_map(items, one, a.j):
+            print(msg)
             ok_all &= good
-            results.append({'benign': m['name'], 'prop': m['prop'], 'silent': good, 'rc': rc})
-            print('%-6s %-4s %-55s %s' % ('BENIGN', m['prop'], m['name'], 'silent' if good else 'FALSE ALARM rc=%d' % rc))
-            if not good:
-                print('\n'.join('      ' + l for l in out.splitlines()[-12:]))
+            results.append(res)
     finally:
-        if os.path.isdir(evsave):
-            os.makedirs(evdir, exist_ok=True)
-            for f in os.listdir(evsave):
-                shutil.copy(os.path.join(evsave, f), evdir)
-            shutil.rmtree(evsave, ignore_errors=True)
         if not a.keep:
             shutil.rmtree(tmp, ignore_errors=True)
+        par.cleanup()
     if not a.k:
         with open(os.path.join(HERE, 'last_result.json'), 'w') as fh:
             json.dump({'ok': ok_all, 'results': results}, fh, indent=1)
